@@ -54,8 +54,11 @@ type Step struct {
 
 // Job is what one child executes.
 type Job struct {
-	GOMAXPROCS int    `json:"gomaxprocs,omitempty"`
-	Steps      []Step `json:"steps"`
+	GOMAXPROCS int `json:"gomaxprocs,omitempty"`
+	// Uname26: the child gives itself the UNAME26 personality first: uname(2) then reports a 2.6.x release (what a
+	// program sees under `setarch --uname-2.6`). What reaches the kernel must not depend on what uname says.
+	Uname26 bool   `json:"uname26,omitempty"`
+	Steps   []Step `json:"steps"`
 }
 
 // Capture is what the syscall wrapper was about to pass to the kernel.
